@@ -11,6 +11,7 @@ import (
 
 var verifDir = "/verif"
 var repoDir = "/repo"
+var outDir = "/verif" // work/, evidence/, replays/ are written below this directory
 
 func main() {
 	if len(os.Args) < 2 {
@@ -22,6 +23,10 @@ func main() {
 	}
 	if v := os.Getenv("VERIF_REPO"); v != "" {
 		repoDir = v
+	}
+	outDir = verifDir
+	if v := os.Getenv("VERIF_OUT"); v != "" {
+		outDir = v
 	}
 	switch os.Args[1] {
 	case "func":
@@ -94,7 +99,7 @@ func cmdFunc(args []string) {
 	fmt.Fprintf(os.Stderr, "loaded in %.1fs\n", time.Since(t0).Seconds())
 	work := *keep
 	if work == "" {
-		work = verifDir + "/work/func"
+		work = outDir + "/work/func"
 	}
 	os.RemoveAll(work)
 	bad := 0
